@@ -71,6 +71,7 @@ type frame struct {
 	paramVal map[string]Val
 	defers   []deferred
 	lockEv   []string
+	callLog  map[string][][]Val // arguments of the calls made so far, by callee name
 }
 
 type deferred struct {
